@@ -5,6 +5,7 @@ import (
 	"go/constant"
 	"go/token"
 	"go/types"
+	"sort"
 	"strings"
 
 	"golang.org/x/tools/go/ssa"
@@ -61,7 +62,62 @@ func recvLooksLike(s *Site, words ...string) bool {
 			return true
 		}
 	}
+	// an interface the module declares for its own use (whatever it is called): what it stands for is decided by the
+	// concrete dependency types that implement it
+	if s.Invoke && worldForRecv != nil {
+		for _, impl := range worldForRecv.dependencyImplementers(s.RecvType) {
+			for _, w := range words {
+				if strings.Contains(impl, w) {
+					return true
+				}
+			}
+		}
+	}
 	return false
+}
+
+// worldForRecv is the loaded program (set when the call graph is built); recvLooksLike is called with sites only.
+var worldForRecv *World
+
+var depImplMemo = map[string][]string{}
+
+// dependencyImplementers: lower-cased names of the concrete named types outside the module that implement the
+// module-declared interface t (nil for interfaces of dependencies, whose own name says what they are).
+func (w *World) dependencyImplementers(t types.Type) []string {
+	nt, ok := t.(*types.Named)
+	if !ok || nt.Obj().Pkg() == nil || !strings.HasPrefix(nt.Obj().Pkg().Path(), modPath) {
+		return nil
+	}
+	iface, ok := nt.Underlying().(*types.Interface)
+	if !ok || iface.NumMethods() == 0 {
+		return nil
+	}
+	key := typeString(t)
+	if v, ok := depImplMemo[key]; ok {
+		return v
+	}
+	var out []string
+	for _, pkg := range w.Prog.AllPackages() {
+		if pkg.Pkg == nil || strings.HasPrefix(pkg.Pkg.Path(), modPath) {
+			continue
+		}
+		sc := pkg.Pkg.Scope()
+		for _, name := range sc.Names() {
+			tn, ok := sc.Lookup(name).(*types.TypeName)
+			if !ok || tn.IsAlias() {
+				continue
+			}
+			if _, isI := tn.Type().Underlying().(*types.Interface); isI {
+				continue
+			}
+			if types.Implements(tn.Type(), iface) || types.Implements(types.NewPointer(tn.Type()), iface) {
+				out = append(out, strings.ToLower(typeString(tn.Type())))
+			}
+		}
+	}
+	sort.Strings(out)
+	depImplMemo[key] = out
+	return out
 }
 
 // Atom classifies a call site that is not entered (callee outside the module or an interface method
